@@ -472,3 +472,117 @@ func TestC01Sweep(t *testing.T) {
 	}
 	rec.Exhaustive("boundary lengths x 3x3 modes x both directions x {Write, Writer}", true)
 }
+
+// TestC01SenderDies: the other half of "exactly one message with a byte-identical payload" -
+// a message whose sender goes away after some of its fragments is NOT received as a message.
+// Library to library: the sender opens a Writer, writes k chunks (each goes out as a fragment;
+// a Ping flushes what the write buffer still holds), and is then gone (CloseNow) before it
+// closes the message - at a frame boundary, which is the one place where the receiver's
+// transport ends with a plain EOF. The receiver's read of that message must fail, and whatever
+// it handed out before that is a prefix of what was written. Enumerated: direction x modes x
+// chunk sizes x number of chunks x read API.
+func TestC01SenderDies(t *testing.T) {
+	rec := evid.For("C01")
+	type sdCase struct {
+		FromClient bool
+		Mode       string
+		Chunk      int
+		K          int
+		API        string
+	}
+	for _, fromClient := range []bool{true, false} {
+		for mi, mode := range c01Modes {
+			for _, chunk := range []int{1, 300, 4096, 5000} {
+				for _, k := range []int{1, 3} {
+					for _, api := range []string{"read", "reader"} {
+						c := sdCase{fromClient, modeName(mode), chunk, k, api}
+						var msg string
+						synctest.Test(t, func(t *testing.T) {
+							e := newEnv(t)
+							defer e.Teardown()
+							pr, err := e.openPair(pairSpec{ClMode: mode, SvMode: c01Modes[(mi+k)%len(c01Modes)], ClThreshold: 64, SvThreshold: 64})
+							if err != nil {
+								msg = "handshake: " + err.Error()
+								return
+							}
+							from, to := pr.Cl, pr.Sv
+							if !fromClient {
+								from, to = pr.Sv, pr.Cl
+							}
+							ctx := context.Background()
+							// the sender's side reads too, so that its Ping is answered
+							e.Go(func() { from.Read(ctx) })
+							whole := expand(ckText, uint64(chunk*7+k), chunk*k)
+							var got []byte
+							var rerr error
+							complete := false
+							rd := e.Call(func() {
+								if api == "read" {
+									_, got, rerr = to.Read(ctx)
+									complete = rerr == nil
+									return
+								}
+								_, r, err := to.Reader(ctx)
+								if err != nil {
+									rerr = err
+									return
+								}
+								b := make([]byte, 777)
+								for {
+									n, err := r.Read(b)
+									got = append(got, b[:n]...)
+									if err == io.EOF {
+										complete = true
+										return
+									}
+									if err != nil {
+										rerr = err
+										return
+									}
+								}
+							})
+							w, err := from.Writer(ctx, websocket.MessageBinary)
+							if err != nil {
+								msg = "Writer: " + err.Error()
+								return
+							}
+							for i := 0; i < k; i++ {
+								if _, err := w.Write(whole[i*chunk : (i+1)*chunk]); err != nil {
+									msg = "Write: " + err.Error()
+									return
+								}
+							}
+							pctx, cancel := context.WithTimeout(ctx, 10*time.Second)
+							perr := from.Ping(pctx) // a control frame is final: everything buffered goes out
+							cancel()
+							if perr != nil {
+								msg = "Ping between the chunks of a message failed: " + perr.Error()
+								return
+							}
+							from.CloseNow() // the sender is gone; its message was never closed
+							if !within(rd, 60*time.Second) {
+								msg = "the receiver's read did not return after the sender was gone"
+								return
+							}
+							if complete {
+								msg = fmt.Sprintf("the sender wrote %d of its chunks and went away without closing the message; the receiver was handed a COMPLETE message of %d bytes", k, len(got))
+								return
+							}
+							if rerr == nil {
+								msg = "harness: neither complete nor failed"
+								return
+							}
+							if !bytes.HasPrefix(whole, got) {
+								msg = fmt.Sprintf("the %d bytes handed out before the error are not a prefix of what was written", len(got))
+							}
+						})
+						rec.Case(true, fmt.Sprintf("senderdies|%+v", c), "sender-gone-between-the-fragments-of-a-message")
+						if msg != "" {
+							failCase(t, "C01", c, "%s", msg)
+						}
+					}
+				}
+			}
+		}
+	}
+}
